@@ -69,4 +69,14 @@ PROPS = {
                   "Clean cfg for link_structure_clean (link_structure itself needs no such assumption)",
                   "updates below the 10 MiB delta threshold for link_structure_partial"],
  },
+ "C15": {
+  "seed": 15,
+  "streams": [{"kind": "py", "name": "verify", "module": "verify_stream", "kwargs": {"focus": "C15"}}],
+  "trusted_base": [
+    "hand-written Lean model of SyncEngine::verify and the exit mapping of main.rs, tied to the real `sy --verify-only --json` by comparing exit status and all result lists per generated pair of trees",
+    "tools/extract_consts.py: the verify body contains no mutating transport call and never selects the no-checksum mode (regenerated each run)",
+    "xxh3 / BLAKE3 do not collide on the compared files (content ids stand for checksums)",
+  ],
+  "assumptions": ["scans list every path once (UniqueRels)", "exit-0 equivalence is stated for readable files and without size bounds"],
+ },
 }
